@@ -107,6 +107,10 @@ func runSpec(l *Loaded, spec *CheckSpec, tier, only string, workers int, extra m
 			"decisions": res.Decisions, "queries": res.Queries, "solver_time_s": round3(res.SolverTimeS), "wall_s": round3(res.WallS),
 			"reach": res.Reached, "solver_unknown": res.Unknown, "truncated": res.Truncated, "max_decision_depth": res.MaxDecDepth,
 			"ssa_instructions_executed": res.Steps, "describe": h.Describe}
+		if res.Truncated {
+			fmt.Printf("NOTE: property=%s harness=%s exploration stopped early after %d paths / %.0f s (wall-clock budget, path cap or decided by a violation): the stated bound was NOT completed\n",
+				spec.Property, h.Name, res.Paths, res.WallS)
+		}
 		ts := h.Quick
 		if tier == "thorough" && (h.Thorough.Params != nil || h.Thorough.MaxSteps != 0) {
 			ts = h.Thorough
